@@ -1,5 +1,5 @@
 (* Driver of the extracted store model (C13): S-expression program in, trace of snapshots out.
-   request:  run <cfg: repaired|original> <fuel> (prog (globals v...) (subs (sub f (params (k ty)...) ret|_ (body s...))...) (main s...))
+   request:  run <cfg: repaired|original> <fuel> <number of http objects> (prog (globals v...) (subs (sub f (params (k ty)...) ret|_ (body s...))...) (main s...))
    reply  :  <status> (snaps (snap depth (locals (k v)...) (globals v...) (groups v...) (hdrs ((o h) "hex")...))...) (logs "hex"...)
              status = norm | bare | val | err | crash | fuel   (no state after err/crash/fuel) *)
 open Common
@@ -60,7 +60,7 @@ let ty_of = function
 let val_of = function
   | Ls [At "I"; x; l] -> VInt (signed_of x, bool_of l)
   | Ls [At "F"; x; l] -> VFloat (bits_of x, bool_of l)
-  | Ls [At "S"; s; ns; l] -> VStr (str_of s, bool_of ns, bool_of l)
+  | Ls [At "S"; s; ns; l] -> VStr0 (str_of s, bool_of ns, bool_of l)
   | Ls [At "B"; b; l] -> VBool (bool_of b, bool_of l)
   | Ls [At "R"; x; l] -> VRTime (signed_of x, bool_of l)
   | x -> failwith ("bad value " ^ sexp_to_string x)
@@ -68,6 +68,7 @@ let name_of = function
   | Ls [At "l"; k] -> NLocal (n_of k)
   | Ls [At "g"; k] -> NGlobal (n_of k)
   | Ls [At "h"; o; h] -> NHeader (n_of o, n_of h)
+  | Ls [At "f"; o; h; k] -> NField (n_of o, n_of h, n_of k)
   | Ls [At "r"; j] -> NGroup (nat_of_int (int_of j))
   | x -> failwith ("bad name " ^ sexp_to_string x)
 let binop_of = function
@@ -112,6 +113,19 @@ let rec stmt_of (x : sexp) : stmt =
            (match el with At "_" -> None | Ls b -> Some (List.map stmt_of b) | _ -> failwith "bad else"))
   | Ls (At "call" :: f :: args) -> SCall (n_of f, List.map expr_of args)
   | Ls [At "ret"; e] -> SReturn (opt_expr e)
+  | Ls [At "retstate"; n] -> SReturnState (n_of n)
+  | Ls [At "nop"] -> SNop
+  | Ls (At "switch" :: c :: d :: cases) ->
+      SSwitch (expr_of c,
+               List.map (function
+                 | Ls [At "case"; t; ft; Ls b] ->
+                     (((match t with
+                        | At "_" -> CDefault
+                        | Ls [At "str"; s] -> CStr (str_of s)
+                        | Ls [At "re"; p] -> CMatch (pat_of p)
+                        | _ -> failwith "bad case test"), List.map stmt_of b), bool_of ft)
+                 | _ -> failwith "bad case") cases,
+               (match d with At "_" -> None | n -> Some (nat_of_int (int_of n))))
   | _ -> failwith ("bad stmt " ^ sexp_to_string x)
 let sub_of = function
   | Ls [At "sub"; f; Ls (At "params" :: ps); r; Ls (At "body" :: b)] ->
@@ -125,28 +139,36 @@ let sb b = At (if b then "1" else "0")
 let sval = function
   | VInt (z, l) -> Ls [At "I"; At (x_of_z (to_bits64 z)); sb l]
   | VFloat (z, l) -> Ls [At "F"; At (x_of_z z); sb l]
-  | VStr (s, ns, l) -> Ls [At "S"; Sq (hex_of_str s); sb ns; sb l]
+  | VStr0 (s, ns, l) -> Ls [At "S"; Sq (hex_of_str s); sb ns; sb l]
   | VBool (b, l) -> Ls [At "B"; sb b; sb l]
   | VRTime (z, l) -> Ls [At "R"; At (x_of_z (to_bits64 z)); sb l]
 let soval = function Some v -> sval v | None -> Ls [At "dangling"]
+let nobjs = ref 0
 let ssnap (s : snapshot) : sexp =
+  let fields =
+    List.concat (List.init !nobjs (fun o -> List.concat (List.init 2 (fun h ->
+      let t = (match hget (n_of_int o, n_of_int h) s.sn_hdrs with Some t -> t | None -> []) in
+      List.map (fun k -> sval (field_of_text t (n_of_int k))) [1; 2])))) in
   Ls [At "snap"; At (string_of_int (int_of_nat s.sn_depth));
       Ls (At "locals" :: List.map (fun (k, v) -> Ls [At (string_of_int (int_of_n k)); soval v]) s.sn_locals);
       Ls (At "globals" :: List.map (fun (_, v) -> soval v) s.sn_globals);
       Ls (At "groups" :: List.map soval s.sn_groups);
       Ls (At "hdrs" :: List.map (fun ((o, h), v) ->
-            Ls [Ls [At (string_of_int (int_of_n o)); At (string_of_int (int_of_n h))]; Sq (hex_of_str v)]) s.sn_hdrs)]
+            Ls [Ls [At (string_of_int (int_of_n o)); At (string_of_int (int_of_n h))]; Sq (hex_of_str v)]) s.sn_hdrs);
+      Ls (At "fields" :: fields)]
 
 let handle (req : string) : string =
   match parse_sexps req with
-  | [At "run"; At cfgname; At fuel;
+  | [At "run"; At cfgname; At fuel; At no;
      Ls [At "prog"; Ls (At "globals" :: gs); Ls (At "subs" :: subs); Ls (At "main" :: main)]] ->
+      nobjs := int_of_string no;
       let c = (match cfgname with "repaired" -> repaired | "original" -> original | _ -> failwith "cfg") in
       let prog = List.map sub_of subs in
       let st0 = init_state (List.map val_of gs) in
       (match run_main c std_ops prog (nat_of_int (int_of_string fuel)) (List.map stmt_of main) st0 with
        | OK (o, st) ->
-           let status = (match o with ONorm -> "norm" | OBare -> "bare" | OVal _ -> "val") in
+           let status = (match o with ONorm -> "norm" | OBare -> "bare" | OVal _ -> "val"
+                                      | OState st -> "state" ^ string_of_int (int_of_n st)) in
            let snaps = List.rev (mk_snap st :: st.trace) in
            status ^ " " ^ sexp_to_string (Ls (At "snaps" :: List.map ssnap snaps))
            ^ " " ^ sexp_to_string (Ls (At "logs" :: List.map (fun l -> Sq (hex_of_str l)) st.logs))
